@@ -182,10 +182,17 @@ class DilationWorld:
                     evs.append(("conn_ok", c.idx))
                 if self.cfg.get("conn_fail") or self.net.listener_for(c.host, c.port) is None:
                     evs.append(("conn_fail", c.idx))
+        apps = []
         for s in self.sides:
             for ti, t in enumerate(s.threads):
                 if s.pc[ti] < len(t) and self._op_enabled(s, t[s.pc[ti]]):
-                    evs.append(("app", s.i, ti))
+                    apps.append(("app", s.i, ti))
+        if self.cfg.get("app_first"):
+            # default schedule: the application issues everything it can before the network moves
+            k = len([e for e in evs if e[0] == "turn"])
+            evs[k:k] = apps
+        else:
+            evs.extend(apps)
         for link in self.net.links:
             for side in (0, 1):
                 if can_close(link, side):
